@@ -103,3 +103,30 @@ class ToDictKeepsRequiredKeys:
                 return False
         return (sk in result and result["columns"] is o.columns and result["alter"] is o.alter and result["index"] is o.index
                 and result["primary_key"] is o.primary_key and result["table_name"] == o.table_name and result[sk] == getattr(o, sk))
+
+
+@contract
+class NonTableEntitiesPerMode:
+    """sequences, types, domains, schemas ... pass through the output step unchanged in every mode - except that BigQuery
+    mode calls a non-empty `schema` `dataset` (same value, nothing else touched)"""
+    fn = "output.dialects.dialects_clean_up"
+    props = ["C10", "C13", "C17", "C18"]
+    cases = {"bigquery": dict(mode="bigquery"), "any other mode": dict(mode=None)}
+
+    def build(G, case):
+        mode = "bigquery" if case["mode"] else G.str("mode", r"[a-z_0-9]+", "hql")
+        schema = [None, G.str("schema", r"[!-~]+", "app")][G.choice("schema?", 2)]
+        ent = G.record({"schema": schema, "sequence_name": G.str("name", r"[!-~]+", "seq1"), "rest": G.str("rest")}, {"increment": ("has increment", G.int("increment"))})
+        return dict(args=[mode, ent])
+
+    def requires(case, output_mode, table_data):
+        return case["mode"] is not None or output_mode != "bigquery"
+
+    def spec(case, output_mode, table_data):
+        if case["mode"] and table_data["schema"]:
+            table_data["dataset"] = table_data["schema"]
+            del table_data["schema"]
+        return table_data
+
+    def ensures(case, old, new, result):
+        return result is new[1]
